@@ -44,7 +44,15 @@ MANIFEST = {
 }
 
 ALPHA = ['a', '\r', '\n', '\0', ' ', 'ü', '€', '\t']
-NONSTR = [5, 1.5, True, None, b'x', [1], ('t',), {'d': 1}, object, ['a', 'b\r\nc'], ['a', 'ü'], [b'x']]
+class Markup(str):
+    """text of a str subclass (template engines' safe strings, enum members with str values, numpy strings)"""
+
+    def __repr__(self):
+        return 'Markup(%s)' % str.__repr__(self)
+
+
+NONSTR = [5, 1.5, True, None, b'x', [1], ('t',), {'d': 1}, object, ['a', 'b\r\nc'], ['a', 'ü'], [b'x'],
+          Markup('en\r\nSet-Cookie: admin=1'), Markup('a\0b'), Markup('fine ü'), Markup('\n')]
 NAMES = ['X-A', 'Content-Type', 'Content-Length', 'Allow', 'Last-Modified', 'content-type']
 STATUSES = [200, 204, 304, 404]
 BLACKLIST = {204: {'content-type'},
@@ -331,6 +339,7 @@ def shards(tier, seed):
             for start in (0, 1):
                 out.insert(0, ('threads', st, how, start, 1 if tier == 'quick' else 2))
     out.append(('blacklist', None, None, None, 'base'))
+    out.append(('cookies', None, None, 3 if tier == 'quick' else 4, 'wsgi'))
     # seed extension: one more character joins the alphabet (all strings <= 2 containing it, all dict ops)
     out.append(('extra', ['\x0b', '\x0c', '\x85', ' ', '\x7f', '\x1b', '\xff'][seed % 7], None, 2, 'base'))
     return out
@@ -341,7 +350,7 @@ def bounds(tier, seed):
             'names': NAMES, 'statuses': STATUSES, 'entry_points': DICT_OPS + ATTR_OPS + CTOR_OPS, 'max_operations': 2}
 
 
-FLOORS = {'redirects': 1000, 'schedules': 1000, 'rejected': 1000, 'accepted': 1000, 'blacklisted_withheld': 100, 'non_ascii_roundtrip': 500, 'multi_valued': 100,
+FLOORS = {'cookie_responses': 1000, 'redirects': 1000, 'schedules': 1000, 'rejected': 1000, 'accepted': 1000, 'blacklisted_withheld': 100, 'non_ascii_roundtrip': 500, 'multi_valued': 100,
           'wsgi_programs': 200}
 
 
@@ -367,9 +376,76 @@ def work_threads(spec):
     return res
 
 
+COOKIE_ALPHA = ['a', 'ü', '€', '日', ' ', ';', '"', '\\', ',', '\x7f', '\x80', '\xff', '\u0100']
+COOKIE_ATTRS = [{}, {'path': '/café'}, {'path': '/日本'}, {'domain': 'bücher.example'}, {'path': '/€', 'httponly': True}]
+
+
+def cookie_case(om, value, attrs, second):
+    """-> (problem or None, emitted Set-Cookie values): the Set-Cookie lines a handler's set_cookie calls put on the wire"""
+    app = om.Ombott()
+
+    def h():
+        app.response.set_cookie('c', value, **attrs)
+        if second is not None:
+            app.response.set_cookie('d', second)
+        app.response.headers['X-Plain'] = 'ü'
+        return 'x'
+    app.route('/c', 'GET', h)
+    c = wsgi.call(app, wsgi.environ('GET', '/c'))
+    if c.escaped is not None or c.code != 200:
+        return f'status {c.status} {c.escaped!r}', []
+    emitted = [v for k, v in c.headers if k.lower() == 'set-cookie']
+    want = 1 + (second is not None)
+    if len(emitted) != want:
+        return f'{len(emitted)} Set-Cookie lines emitted, {want} cookies were set', emitted
+    import http.cookies as hc
+    for v, (nm, val) in zip(sorted(emitted), sorted([('c', value)] + ([('d', second)] if second is not None else []))):
+        if not isinstance(v, str):
+            return f'Set-Cookie value of type {type(v).__name__}', emitted
+        try:
+            text = v.encode('latin1').decode('utf8')
+        except UnicodeError as e:
+            return f'Set-Cookie value {v!r} is not Latin-1 text carrying UTF-8 ({type(e).__name__})', emitted
+        if any(ch in text for ch in '\r\n\0'):
+            return f'Set-Cookie value {v!r} contains a line break or NUL', emitted
+        jar = hc.SimpleCookie()
+        jar.load(text)
+        if nm not in jar or jar[nm].value != val:
+            return f'Set-Cookie line {text!r} does not give the cookie {nm}={val!r} back (a client reads {jar[nm].value if nm in jar else None!r})', emitted
+    return None, emitted
+
+
+def work_cookies(spec):
+    _, _, _, n, _ = spec
+    res = core.new_result()
+    om = sut.load()
+    c = res['counters']
+    import itertools
+    values = [''.join(t) for k in range(1, n + 1) for t in itertools.product(COOKIE_ALPHA, repeat=k) if k < 3 or t[0] in 'aü日' ]
+    for i, value in enumerate(values):
+        for attrs in (COOKIE_ATTRS if len(value) <= 2 else COOKIE_ATTRS[:2]):
+            second = [None, 'plain', '日本語'][i % 3]
+            case = {'cookie': [value, attrs, second]}
+            core.track(res, case)
+            res['states'] += 1
+            res['transitions'] += 1
+            c['cookie_responses'] += 1
+            res['nontrivial'] += 1
+            bad, emitted = cookie_case(om, value, attrs, second)
+            res['outcomes'].add('set_cookie -> ' + ('ok' if bad is None else 'BAD'))
+            if bad:
+                core.add_violation(res, case, f'set_cookie("c", {value!r}, **{attrs!r}){"" if second is None else f" and set_cookie(d, {second!r})"}: {bad}', sig='cookie:' + bad[:18])
+    core.untrack()
+    res['execs'] = res['transitions']
+    core.add_sample(res, {'cookie_alphabet': [repr(x) for x in COOKIE_ALPHA], 'max_len': n, 'attributes': [repr(a) for a in COOKIE_ATTRS]})
+    return res
+
+
 def work(spec):
     if spec[0] == 'threads':
         return work_threads(spec)
+    if spec[0] == 'cookies':
+        return work_cookies(spec)
     kind, a, b, n, via = spec
     res = core.new_result()
     om = sut.load()
@@ -378,7 +454,7 @@ def work(spec):
     def run(prog, status, fresh=False):
         res['states'] += 1
         res['transitions'] += len(prog)
-        case = {'prog': [[op, name, v if isinstance(v, (str, int, float, bool, type(None))) else NONSTR.index(v) + 1000]
+        case = {'prog': [[op, name, v if (isinstance(v, (str, int, float, bool, type(None))) and type(v) is not Markup) else [i for i, x in enumerate(NONSTR) if x is v][0] + 1000]
                          for op, name, v in prog], 'status': status, 'via': via}
         if fresh:
             case['fresh'] = True       # the program starts from a freshly imported framework (nothing remembered from earlier programs)
@@ -410,7 +486,7 @@ def work(spec):
         core.add_sample(res, {'entry_point': a, 'name': b, 'via': via, 'values': len(vals), 'example': [a, b, 'a\r\nü']})
     elif kind == 'pair':
         # ... and values that compare equal although they are written differently (True / 1 / 1.0, False / 0 / 0.0, 5 / 5.0)
-        vals = list(strings(1)) + NONSTR[:7] + NONSTR[9:11] + [1, 1.0, False, 0, 0.0, 5.0]
+        vals = list(strings(1)) + NONSTR[:7] + NONSTR[9:11] + NONSTR[12:15] + [1, 1.0, False, 0, 0.0, 5.0]
         if a == 'content_type':
             # the body's declared charset is the body's business: header values go out as UTF-8 read as Latin-1 whatever it says
             vals = ['text/html; charset=ISO-8859-1', 'text/plain; charset=utf-16', 'text/html; charset=utf-16le', 'text/html; charset=ascii'] + vals[:9]
@@ -479,6 +555,13 @@ def work(spec):
 
 
 def replay(case):
+    if 'cookie' in case:
+        value, attrs, second = case['cookie']
+        bad, emitted = cookie_case(sut.load(), value, attrs, second)
+        if bad is None:
+            return None
+        return (f'handler calls response.set_cookie("c", {value!r}, **{attrs!r})' + ('' if second is None else f' and set_cookie("d", {second!r})') +
+                f'; header list handed to the server has Set-Cookie {emitted!r}: {bad}')
     om = sut.load(fresh=bool(case.get('fresh')))
     if case.get('kind') == 'redirect':
         app = om.default_app()
